@@ -9,6 +9,7 @@ package mtproto
 import (
 	"context"
 	"io"
+	"time"
 
 	"github.com/xelaj/mtproto/internal/encoding/tl"
 	"github.com/xelaj/mtproto/internal/mtproto/messages"
@@ -53,6 +54,7 @@ func (t *fakeTransport) WriteMsg(msg messages.Common, requireToAck bool) error {
 	}
 	t.log = append(t.log, s)
 	t.out <- s
+	verifrt.Yield("transport-written")
 	return nil
 }
 
@@ -190,7 +192,17 @@ func container(ids []int64, seqs []int32, bodies [][]byte) []byte {
 // nextRequest waits for the next content message the client writes (acknowledgements are collected aside)
 func (n *netEnv) nextRequest(acks *[]sentMsg) sentMsg {
 	for {
-		s := <-n.t.out
+		var s sentMsg
+		if verifrt.Symbolic() {
+			s = <-n.t.out
+		} else {
+			// natively a request that never comes must not hang the replay
+			select {
+			case s = <-n.t.out:
+			case <-time.After(3 * time.Second):
+				panic("deadlock: timeout waiting for the client to write a request")
+			}
+		}
 		if len(s.body) >= 4 && s.body[0] == 0x59 && s.body[1] == 0xb4 && s.body[2] == 0xd6 && s.body[3] == 0x62 { // msgs_ack#62d6b459
 			if acks != nil {
 				*acks = append(*acks, s)
